@@ -37,5 +37,81 @@ theorem sliceL_zero {α : Type} (xs : List α) (n : Nat) (h : n ≤ xs.length) :
     Go.sliceL xs 0 (n : Int) = .ok (xs.take n) := by
   simp [Go.sliceL, h]
 
+theorem len_eq (s : String) : Go.len s = (s.toList.length : Int) := by
+  simp [Go.len, String.length_toList]
+
+theorem stringsIndexC_ge (sub : List Char) : ∀ (l : List Char) (n : Nat),
+    stringsIndexC sub l n = -1 ∨ (n : Int) ≤ stringsIndexC sub l n
+  | [], n => by unfold stringsIndexC; split <;> simp
+  | c :: cs, n => by
+    unfold stringsIndexC
+    split
+    · simp
+    · rcases stringsIndexC_ge sub cs (n + 1) with h | h
+      · exact Or.inl h
+      · right; omega
+
+/-- counting from `n` shifts a hit by `n` -/
+theorem stringsIndexC_shift (sub : List Char) : ∀ (l : List Char) (n : Nat),
+    stringsIndexC sub l n = if stringsIndexC sub l 0 != -1 then stringsIndexC sub l 0 + n else -1
+  | [], n => by unfold stringsIndexC; split <;> simp
+  | c :: cs, n => by
+    unfold stringsIndexC
+    split
+    · simp
+    · rw [stringsIndexC_shift sub cs (n + 1), stringsIndexC_shift sub cs 1]
+      rcases stringsIndexC_ge sub cs 0 with h | h
+      · simp [h]
+      · have h1 : stringsIndexC sub cs 0 ≠ -1 := by omega
+        have h2 : stringsIndexC sub cs 0 + 1 ≠ -1 := by omega
+        simp [h1, h2]; omega
+
+theorem slice_nat (s : String) (a b : Nat) (h1 : a ≤ b) (h2 : b ≤ s.toList.length) :
+    Go.slice s (a : Int) (b : Int) = .ok (String.ofList ((s.toList.drop a).take (b - a))) := by
+  have : (0 : Int) ≤ a ∧ (a : Int) ≤ b ∧ (b : Int) ≤ (s.length : Int) := by
+    rw [← String.length_toList]; omega
+  simp [Go.slice, this]
+
+theorem index_nat {α : Type} (xs : List α) (n : Nat) (h : n < xs.length) : Go.index xs (n : Int) = .ok xs[n] := by
+  simp [Go.index, h]
+
+theorem slicesIndex_of_notMem (xs : List String) (x : String) (h : x ∉ xs) : Go.slicesIndex xs x = -1 := by
+  have : xs.idxOf? x = none := by simpa [List.idxOf?_eq_none_iff] using h
+  simp [Go.slicesIndex, this]
+
+theorem idxOf?_append_cons (pre : List String) (x : String) (suf : List String) (h : x ∉ pre) :
+    (pre ++ x :: suf).idxOf? x = some pre.length := by
+  induction pre with
+  | nil => simp [List.idxOf?, List.findIdx?_cons]
+  | cons a r ih =>
+    have ha : a ≠ x := fun e => h (by simp [e])
+    have hr : x ∉ r := fun m => h (List.mem_cons_of_mem _ m)
+    have := ih hr
+    simp only [List.idxOf?] at this ⊢
+    simp [List.findIdx?_cons, ha, this]
+
+theorem slicesIndex_append_cons (pre : List String) (x : String) (suf : List String) (h : x ∉ pre) :
+    Go.slicesIndex (pre ++ x :: suf) x = (pre.length : Int) := by
+  simp [Go.slicesIndex, idxOf?_append_cons pre x suf h]
+
+theorem sliceL_suffix {α : Type} (pre : List α) (x : α) (suf : List α) :
+    Go.sliceL (pre ++ x :: suf) ((pre.length : Int) + 1) (Go.lenL (pre ++ x :: suf)) = .ok suf := by
+  have h1 : ((pre.length : Int) + 1).toNat = pre.length + 1 := by omega
+  have h2 : (Go.lenL (pre ++ x :: suf)).toNat - (pre.length + 1) = suf.length := by
+    simp [Go.lenL]; omega
+  have h3 : (0 : Int) ≤ (pre.length : Int) + 1 ∧ (pre.length : Int) + 1 ≤ Go.lenL (pre ++ x :: suf)
+      ∧ Go.lenL (pre ++ x :: suf) ≤ ((pre ++ x :: suf).length : Int) := by
+    simp [Go.lenL]; omega
+  unfold Go.sliceL
+  rw [if_pos h3, h1, h2]
+  have h4 : (pre ++ x :: suf).drop (pre.length + 1) = suf := by
+    rw [show pre ++ x :: suf = (pre ++ [x]) ++ suf by simp]
+    rw [List.drop_left' (by simp)]
+  simp [h4]
+
+theorem sliceL_prefix {α : Type} (pre : List α) (suf : List α) :
+    Go.sliceL (pre ++ suf) 0 (pre.length : Int) = .ok pre := by
+  rw [Go.sliceL_zero _ _ (by simp)]; simp
+
 end Ytk.Go
 
